@@ -16,10 +16,12 @@ agree = Base.agree; signature = Base.signature; explain = Base.explain
 
 
 def nontrivial(op, m):
-    return len(op.split(' ')[1]) >= 4
+    return op.startswith('cbor.encdet') or len(op.split(' ')[1]) >= 4
 
 
 def classify(op, m):
+    if op.startswith('cbor.encdet'):
+        return 'encdet:' + m.split(' ')[0]
     h = op.split(' ')[1]
     mt = (int(h[:2], 16) >> 5) if h != '-' else -1
     return f'det:mt{mt}:{m}'
@@ -65,6 +67,21 @@ def mutate(rng, s):
 def generate(tier, rng):
     thorough = tier == 'thorough'
     yield 'cbor.det -'
+    # everything the ENCODER emits must be accepted: values around every head-size threshold (incl. 2^31: a signed/unsigned slip),
+    # as integers, lengths, counts, map keys; maps with keys of mixed kinds and lengths
+    import c11
+    edge = sorted(set(v for b in (24, 2**8, 2**16, 2**31, 2**32, 2**53, 2**63) for v in range(b - 2, b + 3)) | {0, 1, 23, 2**64 - 1})
+    for v in edge:
+        if v < 2**64: yield f'cbor.encdet 1 u{v}'
+        if v <= 2**63: yield f'cbor.encdet 1 i{-v}'
+        if v <= 2**62: yield f'cbor.encdet 1 a{v}' if v == 0 else f'cbor.encdet 2 u{v} i{-v}'
+        if v < 2**64: yield 'cbor.encdet 1 m2 ' + ' '.join(c11.entry(f'u{v}', ['u1']) + c11.entry('t' + hexs(b'k'), [f'u{v}']))
+    for n_ in (0, 23, 24, 255, 256, 65535, 65536):
+        yield 'cbor.encdet 1 b' + hexs(rbytes(rng, n_))
+        yield 'cbor.encdet 1 t' + hexs(b'a' * n_)
+    for _ in range(300 if not thorough else 6000):
+        toks = c11.map_script(rng, rng.randrange(0, 5))
+        yield 'cbor.encdet 1 ' + ' '.join(toks)
     for L in range(1, 4 if thorough else 3):
         for t in itertools.product(range(256), repeat=L):
             yield 'cbor.det ' + bytes(t).hex()
